@@ -465,9 +465,6 @@ func C17_introspect() {
 	sym.Assert(data != nil, "data present")
 	schema, _ := data["__schema"].(map[string]interface{})
 	sym.Assert(schema != nil, "__schema present")
-	if sym.Known("C17-any-resolver-hides-lists", config == 2) {
-		return
-	}
 	if sym.Known("C17-default-deprecation-reason-quoted", dep && reason == "") {
 		return
 	}
